@@ -128,3 +128,9 @@ func init() {
 	// OS queries made while package builtin initialises (environment: 8 GB of memory)
 	externals[modPath+"/builtin.systemMemory"] = func(fr *frame, a []value) value { return uint64(8 << 30) }
 }
+
+func init() {
+	// waiting for the background flusher of the memory-mapped file (select on a channel with a
+	// 5 s time-out): nothing to wait for on a heap store
+	externals["(*"+modPath+"/db19/stor.Stor).flushWait"] = func(fr *frame, a []value) value { return nil }
+}
